@@ -195,6 +195,9 @@ impl Plan for Li {
     fn alphabet() -> Vec<Cmd> {
         vec![cmd(li::INSERT, 0, 0), cmd(li::INSERT, 1, 0), cmd(li::INSERT, 2, 0), cmd(li::APPEND, 0, 0), cmd(li::DELETE, 0, 0), cmd(li::DELETE, 1, 0)]
     }
+    fn narrow() -> Vec<Cmd> {
+        vec![cmd(li::INSERT, 0, 0), cmd(li::INSERT, 1, 0), cmd(li::APPEND, 0, 0), cmd(li::DELETE, 0, 0), cmd(li::DELETE, 1, 0)]
+    }
     fn n(q: bool, _heavy: bool) -> usize {
         if q {
             4
@@ -318,6 +321,10 @@ pub fn jobs(prop: &str, tier: &str) -> Vec<Box<dyn JobT>> {
                 c.label = format!("{} all pairs of reachable states + merge closure, n<={}", Y::NAME, c.n);
                 job::<Y>(c, Multi::<Y>(vec![Box::new(MergeLaws { triples: false }), Box::new(Converge { closed_only: true, merge_vs_ops: false })]))
             });
+            // two keys removed with the context of ONE read_ctx(): two pending key removes filed under the same clock at
+            // two replicas, then merged in both groupings (seed C02-6 drops the second key set)
+            let c = cfg("map_orswot two keys, removes with one read_ctx() context, all pairs of reachable states + merge closure, Fifo+merge n<=4", 4, 3, Disc::Fifo, true, vec![cmd(mo::ADD, 0, 0), cmd(mo::ADD, 1, 0), cmd(mo::RM_KEY_CTX, 0, 0), cmd(mo::RM_KEY_CTX, 1, 0)], true);
+            j.push(job::<MapOr>(c, Multi::<MapOr>(vec![Box::new(MergeLaws { triples: false }), Box::new(Converge { closed_only: true, merge_vs_ops: false })])));
         }
         // merge == op delivery
         "C03" => {
@@ -425,9 +432,16 @@ pub fn jobs(prop: &str, tier: &str) -> Vec<Box<dyn JobT>> {
         }
         "C12" => {
             j.push(job::<Li>(no_sym(plan_cfg::<Li>("global order", q, false, Disc::Causal, false)), Multi::<Li>(vec![Box::new(SpecMatch { cov_everywhere: false, use_cov: false }), Box::new(Converge { closed_only: false, merge_vs_ops: false }), Box::new(OrderCheck), Box::new(DupStale)])));
+            if !q {
+                // two actors, six ops: identifiers nested three deep, deletes of the elements they were built on
+                j.push(job::<Li>(deep_cfg::<Li>("global order", 6, Disc::Causal, false), Multi::<Li>(vec![Box::new(SpecMatch { cov_everywhere: false, use_cov: false }), Box::new(Converge { closed_only: false, merge_vs_ops: false }), Box::new(OrderCheck), Box::new(DupStale)])));
+            }
         }
         "C13" => {
             j.push(job::<Li>(no_sym(plan_cfg::<Li>("index model", q, true, Disc::Causal, false)), ListIndex));
+            if !q {
+                j.push(job::<Li>(deep_cfg::<Li>("index model", 6, Disc::Causal, false), ListIndex));
+            }
             j.push(job::<Gl>(plan_cfg::<Gl>("index model", q, true, Disc::Any, true), Multi::<Gl>(vec![Box::new(GListIndex), Box::new(OrderCheck), Box::new(SpecMatch { cov_everywhere: false, use_cov: false })])));
         }
         "C15" => {
@@ -472,6 +486,11 @@ pub fn jobs(prop: &str, tier: &str) -> Vec<Box<dyn JobT>> {
             c.n = if q { 3 } else { 4 };
             c.label = format!("lwwreg reused markers Any+merge n<={}", c.n);
             j.push(job::<Lww>(c, ValidateMerge { misuse: true }));
+            // one key, five ops: after a key remove the two misused replicas' entry clocks can be concurrent while one
+            // map clock descends the other (seed C17-5)
+            let mut c5 = mis(plan_cfg::<MapOr>("", q, true, Disc::Causal, false), vec![cmd(mo::ADD, 0, 0), cmd(mo::ADD, 0, 1), cmd(mo::RM_KEY, 0, 0)], 5);
+            c5.label = "map_orswot one actor id hosted on two replicas, one key, all pairs of reachable states, n<=5".into();
+            j.push(job::<MapOr>(c5, ValidateMerge { misuse: true }));
             if !q {
                 // four replicas (actor ids 0,0,1,2): the two misused replicas can hold *concurrent* entry clocks,
                 // the case in which Map::validate_merge does descend into the nested values
@@ -480,11 +499,6 @@ pub fn jobs(prop: &str, tier: &str) -> Vec<Box<dyn JobT>> {
                 c4.actors = 4;
                 c4.label = "map_orswot one actor id hosted on two of four replicas (concurrent entry clocks reachable), all pairs, n<=4".into();
                 j.push(job::<MapOr>(c4, ValidateMerge { misuse: true }));
-                // one key, five ops: after a key remove the two misused replicas' entry clocks can be concurrent while one
-                // map clock descends the other (seed C17-5)
-                let mut c5 = mis(plan_cfg::<MapOr>("", q, true, Disc::Causal, false), vec![cmd(mo::ADD, 0, 0), cmd(mo::ADD, 0, 1), cmd(mo::RM_KEY, 0, 0)], 5);
-                c5.label = "map_orswot one actor id hosted on two replicas, one key, all pairs of reachable states, n<=5".into();
-                j.push(job::<MapOr>(c5, ValidateMerge { misuse: true }));
                 // per-actor-FIFO delivery: a state of the pair may hold a pending remove that covers the reused dot (seed C17-6)
                 let mut cf = mis(plan_cfg::<Or>("", q, true, Disc::Causal, false), vec![cmd(so::ADD, 0, 0), cmd(so::ADD, 1, 0), cmd(so::RM_CONTAINS, 0, 0)], 4);
                 cf.disc = Disc::Fifo;
